@@ -36,16 +36,18 @@ type genSpecJSON struct {
 	Desc   string          `json:"desc"`
 	Stale  bool            `json:"stale_output_fields,omitempty"`
 	Failed int             `json:"after_failed_encodes,omitempty"`
+	LongN  int             `json:"long_n,omitempty"`
+	LongAt int             `json:"long_at,omitempty"`
 }
 
 func (g genSpec) json() genSpecJSON {
-	return genSpecJSON{g.Slot.FT, g.Slot.Common, g.Slot.Slot.Name, g.Slot.Mesg, g.Msgs, g.HdrCRC, g.Big, g.Desc, g.Stale, g.AfterFailed}
+	return genSpecJSON{g.Slot.FT, g.Slot.Common, g.Slot.Slot.Name, g.Slot.Mesg, g.Msgs, g.HdrCRC, g.Big, g.Desc, g.Stale, g.AfterFailed, g.LongN, g.LongAt}
 }
 
 func specFromJSON(j genSpecJSON) (genSpec, bool) {
 	for _, gs := range genSlots() {
 		if gs.FT == j.FT && gs.Common == j.Common && gs.Slot.Name == j.Member && gs.Mesg == j.Mesg {
-			return genSpec{Slot: gs, Msgs: j.Msgs, HdrCRC: j.HdrCRC, Big: j.Big, Desc: j.Desc, Stale: j.Stale, AfterFailed: j.Failed}, true
+			return genSpec{Slot: gs, Msgs: j.Msgs, HdrCRC: j.HdrCRC, Big: j.Big, Desc: j.Desc, Stale: j.Stale, AfterFailed: j.Failed, LongN: j.LongN, LongAt: j.LongAt}, true
 		}
 	}
 	return genSpec{}, false
@@ -409,6 +411,23 @@ func runC05(w *vx.W) {
 				}
 				step("third Encode after shrinking it back")
 			}
+		}
+	}
+	// long message slices with a field in one message only
+	for _, g := range longSliceSpecs(thorough) {
+		k++
+		if !w.Mine(k) {
+			continue
+		}
+		out, msg, class := c05Check(g)
+		if class == "skip" {
+			continue
+		}
+		w.Eval(1)
+		w.Fam("long-message-slices", 1)
+		w.Distinct(vx.HashB(out))
+		if msg != "" {
+			w.Violation("long-slice/"+class, fmt.Sprintf("%s file, %s (%v), %s, big=%v: %s", fileTypeByByte(g.Slot.FT).Name, g.Slot.Slot.Name, fit.MesgNum(g.Slot.Mesg), g.Desc, g.Big, msg), c05Replay{g.json(), ""})
 		}
 	}
 	c05WriterKindsFamily(w, &k)
